@@ -60,7 +60,7 @@ def eval_depth_test(prog, body):
                             try:
                                 r = it.call_body(body, [("ref", cell, 0, []), new, curr])
                             except A.Undecided as e:
-                                raise common.Infra("C06.W4: depth_test could not be evaluated abstractly (%s); rule needs re-confirmation" % e)
+                                r = _forked_depth_test(prog, body, ctx, new, curr, rel, pred, bad, e)
                             if not isinstance(r, int):
                                 raise common.Infra("C06.W4: depth_test returned undecided value %r" % (r,))
                             n += 1
@@ -78,6 +78,61 @@ def eval_depth_test(prog, body):
                                                    % (pred, REL_NAMES[rel], dsn, fc[2] if fc[2] == "None" else fc[3][0][2], cw, dw, bool(r), bool(want))})
             table["%s/%s" % (pred, rel)] = sorted(seen)
     return {"table": table, "bad": bad, "evaluations": n}
+
+
+# concrete depth pairs per ordering, used only to show that a wrong path is taken by real inputs: near and far
+# reciprocal depths, a pair one ulp-ish apart, a pair far apart
+_PAIRS = {"lt": [(0.25, 0.5), (0.0025, 0.00250001), (1.0, 1.0000002), (0.002499, 0.0025)],
+          "gt": [(0.5, 0.25), (0.00250001, 0.0025), (1.0000002, 1.0), (0.0025, 0.002499)],
+          "eq": [(0.5, 0.5), (0.0025, 0.0025), (0.0, 0.0)],
+          "un": []}
+
+
+def _forked_depth_test(prog, body, ctx, new, curr, rel, pred, bad, first_error):
+    """The plain order domain cannot decide a comparison (e.g. a tolerance test on |new - curr|): enumerate the outcomes of
+    every such comparison; each path must give the specified verdict, and a path that gives another one is reported when a
+    concrete pair of depths with this ordering follows it."""
+    from . import common, symalg as S
+    base = rel_oracle(new, curr, rel)
+
+    def run(orc):
+        it = S.interp(prog, oracle=orc)
+        cell = A.Frame(None)
+        cell.locals[0] = A.copy_val(ctx)
+        return it.call_body(body, [("ref", cell, 0, []), new, curr])
+    try:
+        outs = S.explore(run, max_paths=64, base_oracle=base)
+    except A.Undecided as e:
+        raise common.Infra("C06.W4: depth_test could not be evaluated abstractly (%s; first: %s); rule needs re-confirmation" % (e, first_error))
+    if pred is None:
+        want = 1
+    else:
+        want = int({"lt": "Greater", "gt": "Less", "eq": "Equal", "un": None}[rel] == pred)
+    verdicts = set()
+    for trace, r in outs:
+        if not isinstance(r, int):
+            raise common.Infra("C06.W4: depth_test returned undecided value %r" % (r,))
+        verdicts.add(r)
+        if r == want:
+            continue
+        wit = None
+        for a, b in _PAIRS[rel]:
+            try:
+                if S.trace_holds(trace, {"new": a, "curr": b}):
+                    wit = (a, b)
+                    break
+            except S.NotNumeric as e:
+                raise common.Infra("C06.W4: depth_test compares quantities the rule cannot evaluate (%s)" % e)
+        if wit is None:
+            if rel == "un":
+                continue          # NaN depths: outside the finite-depth domain of the witness search; the plain domain covers them when decidable
+            raise common.Infra("C06.W4: depth_test has a path (%s) returning %s where %s is specified, and no sample depths follow it; rule needs re-confirmation"
+                               % (S.fmt_trace(trace)[:200], bool(r), bool(want)))
+        if len(bad) < 6:
+            bad.append({"case": "%s-%s-path" % (pred, rel),
+                        "msg": "Context::depth_test with predicate %s and %s returns %s for new = %r, curr = %r (path: %s); specified: pass iff cmp(current, new) == predicate "
+                               "on the exact values" % (pred, REL_NAMES[rel], bool(r), wit[0], wit[1], S.fmt_trace(trace)[:160])})
+    return want if verdicts == {want} or not verdicts else (1 - want)
 
 
 def _leaves(v):
